@@ -4,7 +4,7 @@ Histories of the REAL interpreter (harness/src/bin/canon11.rs): several peers ap
 results and `ap`) in par, one designated peer (literal, variable or lens-selected) canonicalizes it, values
 are appended afterwards, the canon value is handed to services on every peer; canon inside folds (one per
 iteration), `new`-scoped streams, canon in both branches of a par, stream maps (canon_map,
-canon_stream_map_scalar); every delivery order for small scripts, random schedules with duplicates and
+canon_stream_map_scalar, also in the model); every delivery order for small scripts, random schedules with duplicates and
 re-deliveries beyond; forked worlds and forged states for the refusals the property relies on.
 
 Oracles (from the property text, on the implementation's data only):
@@ -46,8 +46,8 @@ PARTIAL = [
     "binds exactly the designated peer's values); what is missing is the network invariant that the state handed to a later run at "
     "that script position IS the designated peer's state (positions of different data correspond, stores are unions): decided by "
     "the history oracles (a)-(d) on explored delivery orders",
-    "stream maps (canon_map, canon_stream_map_scalar) are not in the executor model yet (model answers Unsupported: counted, not "
-    "compared); they are covered by the oracles (a), (b), (d) on the real code only",
+    "stream maps (canon_map, canon_stream_map_scalar): the theorems and the lock-step cover them (exec_canon_generic); oracle (c) "
+    "(content = what the designated peer knew) is evaluated for streams only, maps are covered by (a), (b), (d)",
     "oracle (c) reads the designated peer's knowledge off its own produced trace (stream states in front of the canon state, by "
     "generation then position) and applies to the structured script families only (one canonicalized stream instance per script)",
     "trace positions of canon values are not part of a content id: a re-used canon stream carries position 0 for every element "
@@ -92,31 +92,31 @@ def gen_cases(rng, tier, escalate=False):
 
     # every delivery order of small scripts (3 peers)
     for _ in range(10 * k):
-        add(cg.struct_script(rng, 3, "tiny"), mode="explore", max_paths=400 if thorough else 60, max_depth=18, max_terms=6)
+        add(cg.struct_script(rng, 3, "tiny"), mode="explore", max_paths=400 if thorough else 60, max_depth=18, max_terms=4)
     for _ in range(6 * k):
-        add(cg.struct_script(rng, 3, "small"), mode="explore", max_paths=300 if thorough else 40, max_depth=26, max_terms=5)
+        add(cg.struct_script(rng, 3, "small"), mode="explore", max_paths=300 if thorough else 40, max_depth=26, max_terms=3)
     for _ in range(3 * k):
-        add(cg.fold_script(rng, 3), mode="explore", max_paths=200 if thorough else 30, max_depth=30, max_terms=5)
+        add(cg.fold_script(rng, 3), mode="explore", max_paths=200 if thorough else 30, max_depth=30, max_terms=3)
     for _ in range(3 * k):
-        add(cg.map_script(rng, 3), mode="explore", max_paths=200 if thorough else 30, max_depth=26, max_terms=2)
+        add(cg.map_script(rng, 3), mode="explore", max_paths=200 if thorough else 30, max_depth=26, max_terms=3)
     # random schedules with duplicates and re-deliveries
     for _ in range(40 * k):
         sz = rng.choice(["small", "small", "big"])
         np_ = rng.choice([3, 3, 4])
-        add(cg.struct_script(rng, np_, sz), ops=cg.random_schedule(rng, rng.choice([10, 20, 30]), np_), max_terms=3)
+        add(cg.struct_script(rng, np_, sz), ops=cg.random_schedule(rng, rng.choice([10, 20, 30]), np_), max_terms=2)
     for _ in range(20 * k):
         np_ = rng.choice([3, 4])
-        add(cg.fold_script(rng, np_), ops=cg.random_schedule(rng, rng.choice([15, 30]), np_), max_terms=3)
+        add(cg.fold_script(rng, np_), ops=cg.random_schedule(rng, rng.choice([15, 30]), np_), max_terms=2)
     for _ in range(10 * k):
-        add(cg.scoped_fold_script(rng, 3), ops=cg.random_schedule(rng, rng.choice([15, 30]), 3), max_terms=3)
+        add(cg.scoped_fold_script(rng, 3), ops=cg.random_schedule(rng, rng.choice([15, 30]), 3), max_terms=2)
     for _ in range(10 * k):
-        add(cg.par_canons_script(rng, 3), ops=cg.random_schedule(rng, rng.choice([15, 30]), 3), max_terms=3)
+        add(cg.par_canons_script(rng, 3), ops=cg.random_schedule(rng, rng.choice([15, 30]), 3), max_terms=2)
     for _ in range(20 * k):
-        add(cg.map_script(rng, 3), ops=cg.random_schedule(rng, rng.choice([15, 30]), 3), max_terms=1)
+        add(cg.map_script(rng, 3), ops=cg.random_schedule(rng, rng.choice([15, 30]), 3), max_terms=2)
     for _ in range(30 * k):
         add({"script": airgen_canon_script(rng), "peers": airgen.PEERS[:3], "services": airgen.DEFAULT_SERVICES,
              "seq_canons": False, "expect_c": False, "family": "airgen"},
-            ops=airgen.gen_schedule(rng, n_ops=rng.choice([8, 14, 24])), max_terms=3)
+            ops=airgen.gen_schedule(rng, n_ops=rng.choice([8, 14, 24])), max_terms=2)
     # refusals
     for _ in range(12 * k):
         c = cg.fork_case(rng, 3)
@@ -134,7 +134,7 @@ def gen_cases(rng, tier, escalate=False):
         # ... and a peer holding A's data given B's data, under either script (two results, two executors)
         cross += [{"peer": p, "prev": ["a", h], "cur": ["b", (h + d) % n], "script": sc} for p in range(n) for h in range(n)
                   for d in (0, 1) for sc in ("a", "b")]
-        add(c, ops=airgen.fifo_schedule(10), ops_b=airgen.fifo_schedule(10), cross=cross, max_terms=8)
+        add(c, ops=airgen.fifo_schedule(10), ops_b=airgen.fifo_schedule(10), cross=cross, max_terms=6)
     return cases
 
 
